@@ -342,7 +342,7 @@ Proof.
   destruct r1; try (inversion He; subst; exact H1).
   match type of He with (let '(_, _) := ?X in _) = _ => destruct X as [r2 w2] eqn:E2 end.
   assert (H2 : Inv T w2).
-  { destruct (has ev (EV_IN + EV_ERR + EV_HUP)); [|inversion E2; subst; exact H1].
+  { destruct (has ev (EV_IN + EV_PRI + EV_ERR + EV_HUP)); [|inversion E2; subst; exact H1].
     eapply read_ok; [exact H1|left; reflexivity|exact E2]. }
   destruct r2; try (inversion He; subst; exact H2).
   destruct (has ev EV_RDHUP && c_opened (wc w2 cid)); [|inversion He; subst; exact H2].
